@@ -256,6 +256,54 @@ func judge(c *vf.Ctx, i int, h *histOut) {
 	}
 	bad := false
 
+	// 0. Bounded progress after a consumer stall (stall.go): accepted objects
+	// held back in a queue whose consumer has finished everything handed to it.
+	stagedRounds := 0
+	for _, sr := range h.Stall {
+		if sr.Mode != "pre" {
+			c.Count("stall_rounds", 1)
+			c.Count("stall_rounds_"+sr.Mode, 1)
+			if sr.Staged {
+				stagedRounds++
+				c.Count("stall_rounds_staged", 1)
+				c.Count("stall_rounds_staged_"+sr.Mode+"_"+sr.Role, 1)
+			}
+		}
+		switch {
+		case sr.Settle == "stuck":
+			var absent []string
+			for j := range h.Reqs {
+				r := &h.Reqs[j]
+				if r.Err == "" && (r.Status == 200 || r.Status == 408) {
+					found := false
+					for _, row := range h.Rows {
+						if row[1] == int64(r.Client) && row[2] == int64(r.N) {
+							found = true
+							break
+						}
+					}
+					if !found && len(absent) < 12 {
+						absent = append(absent, fmt.Sprintf("c=%d n=%d (%s, %s, seq %d)", r.Client, r.N, r.Node, r.Mode, r.Seq))
+					}
+				}
+			}
+			key := "none-dropped:held-back-after-consumer-stall"
+			if sr.Mode == "pre" {
+				key = "none-dropped:held-back-after-load"
+			}
+			c.Violation(key, fmt.Sprintf("history %d (%s round on %s, %s, staged=%v): %d accepted statement(s) were never handed to the queue consumer although the consumer had finished everything it was given (objects_rx=%d objects_tx=%d stmts_tx=%d, unchanged for %d ms over %d polls) and %d strong reads through the same node succeeded meanwhile; accepted requests absent from the final strong read: %v", i, sr.Mode, sr.Node, sr.Role, sr.Staged, sr.RX-sr.TX, sr.RX, sr.TX, sr.STX, sr.HeldMs, sr.Polls, sr.Controls, absent), small(map[string]any{"round": sr, "absent": absent, "stall": h.Stall}))
+			bad = true
+		case sr.Settle != "applied":
+			c.Logf("case %d: stall round on %s (%s): queues did not become quiescent: %+v", i, sr.Node, sr.Mode, sr)
+			c.Inconclusive("queues not quiescent after consumer-stall round")
+			return
+		case sr.HeldMax >= slowBandMs:
+			c.Logf("case %d: stall round on %s (%s): pending objects were held back for %d ms before the flush", i, sr.Node, sr.Mode, sr.HeldMax)
+			c.Count("stall_rounds_slow_flush", 1)
+			c.Inconclusive("queue flush slow after consumer-stall round (inconclusive band)")
+		}
+	}
+
 	// 1. Walk the table in apply order: it must be a concatenation of complete
 	// request instances (c,n,0..k-1).
 	type inst struct{ startPos, startID int64 }
@@ -403,7 +451,7 @@ func judge(c *vf.Ctx, i int, h *histOut) {
 			c.Count("accepted_at_"+r.Role, 1)
 		}
 	}
-	nt := timerFl > 0 && sizeFl > 0 && waitsOK >= 10
+	nt := timerFl > 0 && sizeFl > 0 && waitsOK >= 10 && stagedRounds > 0
 	if h.Spec.Nodes == 3 {
 		nt = nt && (ev["http.queued_executions_failed"] > 0 || len(h.Leaders) >= 2)
 	}
@@ -417,7 +465,7 @@ func judge(c *vf.Ctx, i int, h *histOut) {
 		if len(s.Reqs) > 8 {
 			s.Reqs = s.Reqs[:8]
 		}
-		c.Sample(map[string]any{"spec": s.Spec, "faults": s.Faults, "leaders": s.Leaders, "expvar": s.Expvar, "first_requests": s.Reqs, "rows": len(h.Rows)})
+		c.Sample(map[string]any{"spec": s.Spec, "faults": s.Faults, "stall_rounds": s.Stall, "leaders": s.Leaders, "expvar": s.Expvar, "first_requests": s.Reqs, "rows": len(h.Rows)})
 	}
 }
 
